@@ -186,10 +186,10 @@ func (rb *rebaser) k(t time.Time) int {
 		rb.have, rb.first = true, t
 	}
 	d := t.Sub(rb.first)
-	if d%rt.DefaultTime.Unit != 0 {
+	if d%curTM.Unit != 0 {
 		return -99999
 	}
-	return svcZero + int(d/rt.DefaultTime.Unit)
+	return svcZero + int(d/curTM.Unit)
 }
 
 var svcStreamTask = "stream\n    |from()\n    |log()\n        .prefix('sout')\n"
@@ -220,7 +220,7 @@ func (w *svcWorld) defineTask(id, src string, tt kapacitor.TaskType, dbrps []kap
 	if err != nil {
 		rt.Fatalf("c18svc: executing task %s: %v", id, err)
 	}
-	bqs, err := et.BatchQueries(rt.DefaultTime.T(0), rt.DefaultTime.T(10))
+	bqs, err := et.BatchQueries(curTM.T(0), curTM.T(10))
 	if err != nil {
 		rt.Fatalf("c18svc: batch queries of %s: %v", id, err)
 	}
@@ -253,7 +253,7 @@ func (w *svcWorld) streamThroughService(n int, items []sItem) (outs map[bool][]a
 			maxT = it.t
 		}
 	}
-	code, m := w.call("POST", "/recordings/stream", httpd.BasePath+"/recordings/stream", map[string]any{"id": recID, "task": "st", "stop": rt.DefaultTime.T(maxT)})
+	code, m := w.call("POST", "/recordings/stream", httpd.BasePath+"/recordings/stream", map[string]any{"id": recID, "task": "st", "stop": curTM.T(maxT)})
 	if code != http.StatusCreated {
 		rt.Fatalf("c18svc: record stream answered %d %v", code, m)
 	}
@@ -268,13 +268,13 @@ func (w *svcWorld) streamThroughService(n int, items []sItem) (outs map[bool][]a
 		}
 	}
 	for _, it := range items {
-		p := rt.MustPoint(it.name, it.tags, it.fields, rt.DefaultTime.T(it.t))
+		p := rt.MustPoint(it.name, it.tags, it.fields, curTM.T(it.t))
 		if err := w.env.Write(it.db, it.rp, p); err != nil {
 			rt.Fatalf("c18svc: write: %v", err)
 		}
 	}
 	// the recording ends with the first point beyond `stop`
-	if err := w.env.Write("db", "rp", rt.MustPoint("terminator", nil, map[string]any{"x": int64(1)}, rt.DefaultTime.T(maxT+100))); err != nil {
+	if err := w.env.Write("db", "rp", rt.MustPoint("terminator", nil, map[string]any{"x": int64(1)}, curTM.T(maxT+100))); err != nil {
 		rt.Fatalf("c18svc: write: %v", err)
 	}
 	rm := w.await("recordings", recID)
@@ -324,9 +324,9 @@ func writeBatchArchive(path string, sources [][]bItem) {
 		for _, it := range items {
 			pts := make([]edge.BatchPointMessage, len(it.pts))
 			for k, p := range it.pts {
-				pts[k] = edge.NewBatchPointMessage(models.Fields(p.fields), models.Tags(p.tags), rt.DefaultTime.T(p.t))
+				pts[k] = edge.NewBatchPointMessage(models.Fields(p.fields), models.Tags(p.tags), curTM.T(p.t))
 			}
-			begin := edge.NewBeginBatchMessage(it.name, models.Tags(it.gtags), it.byName, rt.DefaultTime.T(it.tmax), len(pts))
+			begin := edge.NewBeginBatchMessage(it.name, models.Tags(it.gtags), it.byName, curTM.T(it.tmax), len(pts))
 			begin.SetDimensions(models.Dimensions{ByName: it.byName, TagNames: it.dims})
 			if err := kapacitor.WriteBatchForRecording(wr, edge.NewBufferedBatchMessage(begin, pts, edge.NewEndBatchMessage())); err != nil {
 				rt.Fatalf("c18svc: WriteBatchForRecording: %v", err)
@@ -379,10 +379,10 @@ func (w *svcWorld) batchThroughService(c batchCase, recTime bool) (outs [][]any,
 			return tk(t)
 		}
 		d := t.Sub(first)
-		if !have || d%rt.DefaultTime.Unit != 0 {
+		if !have || d%curTM.Unit != 0 {
 			return -99999
 		}
-		return svcZero + int(d/rt.DefaultTime.Unit)
+		return svcZero + int(d/curTM.Unit)
 	}
 	for i := range c.sources {
 		o := []any{}
